@@ -611,6 +611,13 @@ def run(ctx):
     ctx.add_samples([hcases[200], hcases[ndir + 1], hcases[ndir + 2], scases[70], scases[-1]])
 
     if not quick:
+        if res["ok"]:   # independent re-check of the compiled theorems by coqchk
+            rc, out = pv.sh("ulimit -v 12000000; timeout 900 coqchk -silent -o -Q . PV Props/Properties_C18.vo", cwd=pv.COQ, timeout=960)
+            axl = re.search(r"\* Axioms:\s*(.*?)\n\s*\n", out, re.S)
+            ctx.cov["coqchk"] = {"rc": rc, "axioms": (axl.group(1).strip() if axl else "?")}
+            if rc != 0:
+                ctx.violation("coqchk", {"kind": "proof-obligation", "no_longer_checks": ["coqchk Props/Properties_C18.vo"], "tail": out[-1500:]}, False,
+                              "coqchk rejects the compiled theorems")
         impl2 = pv.build_harness("asan", "pool_drv")
         sub = assemble(hists[:: max(1, len(hists) // 20000)])
         hist_correspondence(ctx, "pool-asan", sub, impl2, model, impl_env={"ASAN_OPTIONS": "detect_leaks=1"})
